@@ -16,14 +16,16 @@ for ALL parsed inputs, of the helpers of this repository that index into remote-
 `descriptionIsPlanB`, `extractBundleID`, `extractFingerprint`, `selectCandidateMediaSection`,
 `extractICEDetails`, `codecsFromMediaDescription`, the Plan-B tail of `startRTPReceivers`,
 `handleUndeclaredSSRC`, `checkAndUpdateTrack`, `handleIncomingSSRC` up to its first use of the transports
-(declared-SSRC test, single-section shortcut, payload-type fallback),
+(declared-SSRC test, single-section shortcut, payload-type fallback) and its mid / rid / rsid probing loop
+over the transceivers,
 `ICECandidate.exportExtensions`, `RTPReceiver.Read`, and the
 `pc.RemoteDescription().parsed` dereference of `SetRemoteDescription`.  Parsing (pion/sdp, pion/ice,
 pion/rtp) is external: candidate and codec lookups enter as arbitrary oracles.  Everything else — the text
 parsers, the transports, interceptors, goroutines started later — is SEARCHED by the mutation harness
 (harness/cmd/wvh/c30*.go), not proved.
 
-Findings repaired: cd3b386 — `RTPReceiver.Read` / `SetReadDeadline` dereferenced the unbound streams of
+Findings repaired: 9a29e20 — `RTPReceiver.readRTP` dereferenced the nil reader of a configured but never bound
+track (second SSRC in a section of an answer; `C30_receiverReadRTP_before_fix_panics`); cd3b386 — `RTPReceiver.Read` / `SetReadDeadline` dereferenced the unbound streams of
 `tracks[0]` of a rid-based receiver (`C30_receiverRead_before_fix_panics`); 9d23192: the Plan-B warning of `startRTPReceivers` formatted
 `incomingTrack.ssrcs[0]`; a rid-based track has no SSRC (`C30_planB_warning_before_fix_panics`).
 -/
@@ -220,6 +222,29 @@ example : handleIncomingSSRCHead sessOneTokenMsid false false true true (fun _ =
 example : handleUndeclaredSSRC { media := kAudio, formats := [], attrs := [⟨kMsid, [115, 32, 116]⟩] }
     = .val (.add 1 [115] [116]) := by decide
 
+/-! ## handleIncomingSSRC after streamsForSSRC: the mid / rid / rsid probing loop over the transceivers -/
+
+/-- The probing loop does not panic for any list of transceivers — with or without receiver (a send-only
+    transceiver from AddTransceiverFromTrack has none), receivers open or closed, any RIDs — and any
+    sequence of packet ids (mid / rid / rsid present, empty, unknown; padding-only packets): the method
+    calls on `receiver` are behind `t.Mid() != mid || receiver == nil`. -/
+theorem C30_no_panic_probe (trs : List ProbeTr) (first : PktIds) (rest : List PktIds) :
+    NoPanic (probe trs first rest) := probe_ok trs first rest
+
+/-- Without `receiver == nil` in the guard, a packet naming the mid of a receiver-less transceiver is a nil
+    dereference (in the background probe goroutine). -/
+theorem C30_probe_without_nil_guard_panics :
+    probeTransceiversNoNilGuard [48] [113] [] [{ mid := [48], receiver := none }] 0 = .panic := by decide
+
+/-- non-vacuity: mid "0" names a send-only transceiver (no receiver) and a receive-only one whose receiver
+    has a track for rid "q": the first is skipped, the second takes the stream -/
+example : probe [{ mid := [48], receiver := none }, { mid := [48], receiver := some (false, [[113]]) }]
+    { mid := [48], rid := [113], rsid := [], paddingOnly := false } [] = .val (.rid 1) := by decide
+
+/-- … and with no matching transceiver the probe fails after its eleven rounds -/
+example : probe [{ mid := [49], receiver := some (false, [[113]]) }]
+    { mid := [48], rid := [113], rsid := [], paddingOnly := false } [] = .val .failed := by decide
+
 /-! ## `pc.RemoteDescription().parsed` in SetRemoteDescription -/
 
 /-- After a successful `setDescription(sd, setRemote)` the connection has a remote description, from any
@@ -300,5 +325,14 @@ theorem C30_receiverRead_agrees_with_old (tracks : List (Option Nat)) (h : recei
     | some r => rfl
 
 example : receiverReadOld [some 3, none] ≠ .panic := by decide
+
+/-- `RTPReceiver.readRTP` (as repaired by 9a29e20) does not panic for any set of tracks, bound or not, and any
+    reader. -/
+theorem C30_no_panic_receiverReadRTP (tracks : List (Option Nat)) (i : Nat) : NoPanic (receiverReadRTP tracks i) := by
+  unfold NoPanic receiverReadRTP
+  split <;> rfl
+
+/-- Before the fix the second, never bound track of a started receiver crashed the goroutine peeking it. -/
+theorem C30_receiverReadRTP_before_fix_panics : receiverReadRTPOld [some 0, none] 1 = .panic := by decide
 
 end WebrtcVerif.C30
